@@ -467,6 +467,43 @@ def showCEx : CEx → String
   | .nullif0 e => "(nullif0 " ++ showCEx e ++ ")"
   | .div a b => "(div " ++ showCEx a ++ " " ++ showCEx b ++ ")"
 
+-- ------------------------------------------------------------------------------------------ transforms.preprocess
+/-- the features of one SELECT that the SQLite generator's preprocess chain must remove -/
+structure PFlags where
+  distinctOn : Bool
+  qualify : Bool
+  semiAnti : Bool
+  deriving DecidableEq, Repr, Inhabited
+
+def PFlags.clean (f : PFlags) : Bool := !f.distinctOn && !f.qualify && !f.semiAnti
+
+/-- one run of the chain [eliminate_distinct_on, eliminate_qualify, eliminate_semi_and_anti_joins] over the node being
+    generated: the two wrapping transforms return a NEW outer SELECT and leave the (modified) input as its subquery,
+    the third rewrites in place.  Result: the node to print now, and the inner SELECT still to be generated. -/
+def runChain (f : PFlags) : PFlags × Option PFlags :=
+  let (c1, p1) : PFlags × Option PFlags :=
+    if f.distinctOn then (⟨false, false, false⟩, some { f with distinctOn := false }) else (f, none)
+  let (c2, p2) : PFlags × Option PFlags :=
+    if c1.qualify then (⟨false, false, false⟩, some { c1 with qualify := false }) else (c1, p1)
+  ({ c2 with semiAnti := false }, p2)
+
+/-- `preprocess._to_sql` as on HEAD: the chain runs on EVERY SELECT that reaches generation, the wrapped inner ones
+    included (they are dispatched again when the wrapper's subquery is printed).  Output: the SELECTs as printed,
+    outermost first. -/
+def genSelects : Nat → PFlags → List PFlags
+  | 0, f => [f]
+  | fuel + 1, f =>
+    match runChain f with
+    | (cur, none) => [cur]
+    | (cur, some inner) => cur :: genSelects fuel inner
+
+/-- UNREPAIRED VARIANT (seeded regression C02-8): a "preprocessed" flag is put on the chain's INPUT node; that very
+    node becomes the inner subquery of a wrapping transform, so when it is dispatched again the chain is skipped -/
+def genSelectsFlagged (f : PFlags) : List PFlags :=
+  match runChain f with
+  | (cur, none) => [cur]
+  | (cur, some inner) => [cur, inner]
+
 -- ------------------------------------------------------------------------------------------ set-operation chains
 inductive SetKind where
   | union | except | intersect
